@@ -12,14 +12,65 @@ Truthiness = namedtuple("Truthiness", "b")
 READERS_BASE = "pymemcache/client/base.py"
 
 
+def _has_sendall(f):
+    return any(isinstance(n, ast.Call) and isinstance(n.func, ast.Attribute) and n.func.attr == "sendall" for n in walk_no_nested(f.node))
+
+
+def send_helpers(prog):
+    """Client methods that send (contain <sock>.sendall) but read no reply: wrappers around the send step.
+    A call of such a helper is a send event of its caller."""
+    direct, readers = recv_reaching_functions(prog)
+    rm = methods_reaching_readers(prog, readers)
+    out = {}
+    for f in prog.cls("Client").methods.values():
+        if not _has_sendall(f):
+            continue
+        reads = False
+        al = local_reader_aliases(f, readers) | set(readers)
+        for n in walk_no_nested(f.node):
+            if isinstance(n, ast.Call) and ((isinstance(n.func, ast.Name) and n.func.id in al) or (isinstance(n.func, ast.Attribute) and is_self_attr(n.func) and n.func.attr in rm)):
+                reads = True
+        if not reads:
+            out[f.name] = f
+    return out
+
+
 def exchange_functions(prog):
+    """Client methods that send: directly (<sock>.sendall) or through a send helper."""
+    helpers = send_helpers(prog)
     out = []
     for f in prog.cls("Client").methods.values():
+        if _has_sendall(f):
+            out.append(f)
+            continue
         for n in walk_no_nested(f.node):
-            if isinstance(n, ast.Call) and isinstance(n.func, ast.Attribute) and n.func.attr == "sendall":
+            if isinstance(n, ast.Call) and isinstance(n.func, ast.Attribute) and is_self_attr(n.func) and n.func.attr in helpers:
                 out.append(f)
                 break
     return sorted(out, key=lambda f: f.node.lineno)
+
+
+def reading_exchange_functions(prog):
+    """Exchange functions that also read replies (the request/response functions proper)."""
+    helpers = send_helpers(prog)
+    return [f for f in exchange_functions(prog) if f.name not in helpers]
+
+
+_SUMMARY = {}
+
+
+def helper_summary(prog, fn, readers, reader_methods):
+    """For a send helper: does every exit by an exception of the given colour, after sendall started, pass close?"""
+    key = (id(prog), fn.qualname)
+    if key in _SUMMARY:
+        return _SUMMARY[key]
+    res = {}
+    runs = analyse_exchange(prog, fn, readers, reader_methods, with_async=True, helpers={})
+    for colour in (ORD, ASYNC):
+        obs = close_obligations(prog, fn, runs, colour)
+        res[colour] = all(o[0] for o in obs) if obs else True
+    _SUMMARY[key] = res
+    return res
 
 
 def recv_reaching_functions(prog):
@@ -72,8 +123,11 @@ class ExchangeDomain(Domain):
     """Tracked facts: sent (a sendall was started), closed (Client.close passed since), caught (colour of an
     exception intercepted since the sendall), reads (reader calls since the sendall: 0 / 1 = one or more)."""
 
-    def __init__(self, prog, fn, readers, reader_methods, with_async=True):
+    def __init__(self, prog, fn, readers, reader_methods, with_async=True, helpers=None):
         super().__init__(prog, fn)
+        if helpers is None:
+            helpers = {n: helper_summary(prog, h, readers, reader_methods) for n, h in send_helpers(prog).items() if n != fn.name}
+        self.helpers = helpers
         self.readers = set(readers) | local_reader_aliases(fn, readers)
         self.reader_methods = reader_methods
         self.async_enabled = with_async
@@ -110,10 +164,20 @@ class ExchangeDomain(Domain):
         if isinstance(node.func, ast.Attribute) and node.func.attr == "sendall":
             self.n_sendall += 1
             s2 = state.update({"sent": 1, "closed": 0, "caught": None, "reads": 0})
-            return [("ok", NONE, s2)] + self.call_raises(node, s2)
+            return [("ok", NONE, s2.set("self.sock", Neq(None)))] + self.call_raises(node, s2)
+        if name.startswith("self.") and name[5:] in self.helpers:
+            # a send helper: the request goes out here; whether a failing helper has already closed is its summary
+            self.n_sendall += 1
+            summ = self.helpers[name[5:]]
+            s2 = state.update({"sent": 1, "closed": 0, "caught": None, "reads": 0})
+            out = [("ok", NONE, s2.set("self.sock", Neq(None)))]
+            out.append(("exc", Exc(ORD, None, node.lineno), s2.set("closed", 1 if summ.get(ORD) else 0)))
+            if self.async_enabled:
+                out.append(("exc", Exc(ASYNC, None, node.lineno), s2.set("closed", 1 if summ.get(ASYNC) else 0)))
+            return out
         if name in ("self.close", "self.disconnect_all"):
             self.n_close_calls.add(node.lineno)
-            s2 = state.set("closed", 1)
+            s2 = state.set("closed", 1).set("self.sock", NONE)
             # Client.close is summarised as not raising (C06.R6); an interruption inside the cleanup call itself is
             # not an interruption point of the property's quantifier.
             return [("ok", NONE, s2)]
@@ -125,19 +189,21 @@ class ExchangeDomain(Domain):
             self.events.append(("read", node, state))
             s2 = state.set("reads", 1)
             return [("ok", TOP, s2)] + self.call_raises(node, state)
+        if name == "self._connect":
+            return [("ok", NONE, state.set("self.sock", Neq(None)))] + self.call_raises(node, state)
         if name in ("isinstance", "len", "logger.debug", "partial"):
             return [("ok", TOP, state)]
         return [("ok", TOP, state)] + self.call_raises(node, state)
 
 
-def analyse_exchange(prog, fn, readers, reader_methods, with_async=True):
+def analyse_exchange(prog, fn, readers, reader_methods, with_async=True, helpers=None):
     """Run the path interpreter on one exchange function for every truthiness of noreply / ignore_exc / self.sock.
     Returns list of (config, outs, dom)."""
     runs = []
     has_noreply = fn.param("noreply") is not None
     for noreply in ((True, False) if has_noreply else (None,)):
         for ign in (True, False):
-            dom = ExchangeDomain(prog, fn, readers, reader_methods, with_async=with_async)
+            dom = ExchangeDomain(prog, fn, readers, reader_methods, with_async=with_async, helpers=helpers)
             st = dom.init_state(fn.node).set("self.ignore_exc", Truthiness(ign))
             if noreply is not None:
                 st = st.set("noreply", Truthiness(noreply))
